@@ -127,7 +127,7 @@ impl LangInterpreter for Italian {
             "tredici" | "tredicesim" => b.put(b"13"),
             "quattordici" | "quattordicesim" => b.put(b"14"),
             "quindici" | "quindicesim" => b.put(b"15"),
-            "sedici" | "dedicesim" => b.put(b"16"),
+            "sedici" | "sedicesim" | "dedicesim" => b.put(b"16"),
             "diciassette" | "diciassettesim" => b.put(b"17"),
             "diciotto" | "diciottesim" => b.put(b"18"),
             "diciannove" | "diciannovesim" => b.put(b"19"),
